@@ -30,14 +30,14 @@ HIST = ["fresh", "train_steps", "data_init", "eval_calls"]
 def gen_cases(tier, seed):
     rng = np.random.default_rng(seed + 41)
     cases = []
-    nrand = 3 if tier == "quick" else 40
+    nrand = 3 if tier == "quick" else 120
     for fam in zoo.ALL_FAMS:
         cfgs = zoo.configs([fam], tier, seed + 13, nrand)
         for ci, cfg in enumerate(cfgs):
             cases.append({"kind": "transform", "cfg": cfg, "hist": HIST[ci % 4], "seed": env.subseed(seed, "c15", fam, ci),
                           "world": "f32" if ci % 3 == 0 else "f64", "cost": 6 if "umnn" in fam else 2})
     # extra weight on the random-structure families
-    for i in range(30 if tier == "quick" else 1000):
+    for i in range(30 if tier == "quick" else 3000):
         fam = ["ar_affine", "ar_rq", "ar_quadratic", "ar_linear", "permutation", "conv1x1", "coupling_rq"][i % 7]
         cfg = zoo.FAM[fam].sample_cfg(rng, tier)
         if fam.startswith("ar_"):
@@ -63,10 +63,10 @@ def gen_cases(tier, seed):
         for hi, h in enumerate(HIST):
             cases.append({"kind": "transform", "cfg": cfg, "hist": h, "seed": env.subseed(seed, "c15n", ni, hi),
                           "world": "f64" if (ni + hi) % 2 else "f32", "cost": 2})
-    for i in range(40 if tier == "quick" else 1000):
+    for i in range(40 if tier == "quick" else 3000):
         cases.append({"kind": "flow", "cfg": dzoo.sample_flow_cfg(rng), "hist": HIST[i % 4], "seed": env.subseed(seed, "c15f", i),
                       "world": "f64", "cost": 3})
-    for i in range(30 if tier == "quick" else 600):
+    for i in range(30 if tier == "quick" else 2000):
         cases.append({"kind": "dist", "cfg": dzoo.sample_dist_cfg(rng), "hist": HIST[i % 2], "seed": env.subseed(seed, "c15d", i),
                       "world": "f64", "cost": 1})
     return cases
